@@ -46,7 +46,14 @@ DATASETS["dirty"] = [("alpha", [("r", None), ("b", 0), ("z", "MISSING")]),
                      ("alpha", [("r", None), ("b", 0)]),
                      ("alpha", [("x", "MISSING"), ("y", 0)]),
                      ("alpha", [("r", None), ("a", 0), ("z", "MISSING")]),
-                     ("beta", [("r", None), ("a", 0), ("b", 1)])]
+                     ("beta", [("r", None), ("a", 0), ("b", 1)]),
+                     # wave 13: a broken trace from a later record that repeats
+                     # a span id of an earlier, surviving trace (different
+                     # content; the first occurrence wins) and hangs a child
+                     # below that id: a parent/child link across the trace that
+                     # stays and the trace that cleaning removes
+                     ("alpha", [("x", "MISSING"), ("q", None, "t1s1"),
+                                ("c", "t1s1")])]
 # time_buffer = 1 minute: anchors at minute 0 and 5 fix the window [1, 4];
 # offsets are (start, end) in minutes per span, default derived from k, i
 DATASETS["buffered"] = [("zz", [("z", None)]),
@@ -84,7 +91,8 @@ def spans_of_dataset(ds):
     # epoch magnitude, not a multiple of 256 ns (spacing of doubles there)
     t = 1_700_000_000 * 10 ** 9 + 123_456_789
     for k, (name, nodes) in enumerate(DATASETS[ds]):
-        for i, (typ, par) in enumerate(nodes):
+        for i, node in enumerate(nodes):
+            typ, par = node[:2]
             if ds == "buffered":
                 st, en = BUFFERED_TIMES[k][i]
                 out.append({
@@ -97,12 +105,13 @@ def spans_of_dataset(ds):
                 continue
             out.append({
                 "job_name": name, "job_id": f"trace{k}", "event_type": typ,
-                "event_id": f"t{k}s{i}",
+                "event_id": node[2] if len(node) > 2 else f"t{k}s{i}",
                 "start_timestamp": str(t + (k * 100 + i * 10) * 10 ** 6),
                 "end_timestamp": str(t + (k * 100 + 90 - i * 10) * 10 ** 6),
                 "application_name": f"app{k}",
                 "parent_event_id": None if par is None else
-                (f"t{k}missing" if par == "MISSING" else f"t{k}s{par}")})
+                (f"t{k}missing" if par == "MISSING" else
+                 par if isinstance(par, str) else f"t{k}s{par}")})
     return out
 
 
@@ -185,7 +194,7 @@ def shape_of(job):
 
 
 def is_broken(nodes):
-    return any(par == "MISSING" for _, par in nodes)
+    return any(n[1] == "MISSING" for n in nodes)
 
 
 def tree_shape(ds, job_id):
